@@ -187,6 +187,7 @@ fn worker(id: &str, tier: Tier, seed: u64, shard: u64, of: u64, out: &str) {
         engine::run_regress(&ctx, &mut rep, prop.replay);
     }
     (prop.run)(&ctx, &mut rep);
+    engine::flush_group_times(&mut rep);
     let text = serde_json::to_string(&rep).unwrap();
     if let Err(e) = std::fs::write(out, text) {
         eprintln!("worker: cannot write {out}: {e}");
